@@ -115,6 +115,26 @@ pub fn install_panic_hook() {
         } else {
             "<non-string payload>".into()
         };
+        // a panic raised inside the standard library (e.g. an overflow in i32::pow) is attributed to the
+        // first frame of the library under test found in the backtrace
+        let loc = if loc.starts_with("/rustc/") || loc.starts_with("/root/.rustup") {
+            let bt = std::backtrace::Backtrace::force_capture().to_string();
+            let mut found = None;
+            for l in bt.lines() {
+                let l = l.trim();
+                if let Some(rest) = l.strip_prefix("at /repo/") {
+                    let mut it = rest.rsplitn(3, ':');
+                    let _col = it.next();
+                    let line = it.next().unwrap_or("?");
+                    let file = it.next().unwrap_or(rest);
+                    found = Some(format!("{file}:{line}"));
+                    break;
+                }
+            }
+            found.map(|f| format!("{f} (via {})", loc.rsplit('/').next().unwrap_or(""))).unwrap_or(loc)
+        } else {
+            loc
+        };
         let _ = LAST_PANIC.try_with(|c| *c.borrow_mut() = Some(format!("{loc}: {msg}")));
     }));
 }
